@@ -313,6 +313,7 @@ pub fn run(ctx: &Ctx) -> Report {
         match (nbanks, ctx.thorough) {
             (1, false) if plain => 4,
             (1, false) => 3,
+            (1, true) if plain => 5,
             (1, true) => 4,
             (_, false) => 2,
             (_, true) => 3,
@@ -330,7 +331,7 @@ pub fn run(ctx: &Ctx) -> Report {
         let seq = seq_decode(i - offsets[ci], k, bound(cfg));
         judge(cfg, &seq, l);
     }));
-    let nseq = json!({"bounds": "one plain bank: length<=4 (quick) ; one bank: <=3 (quick) / <=4 (thorough); two or three banks: <=2 (quick) / <=3 (thorough)", "total": total});
+    let nseq = json!({"bounds": "one plain bank: length<=4 (quick) / <=5 (thorough); one bank: <=3 (quick) / <=4 (thorough); two or three banks: <=2 (quick) / <=3 (thorough)", "total": total});
     rep.extra("configurations", json!(ncfg));
     rep.extra("sequences_per_configuration", json!(nseq));
     rep.assumptions = vec!["only the direction illegal => rejected is demanded; rejecting a legal layout is C01's business".into(), "zero-size banks and zero-size items have no verdict".into()];
